@@ -12,7 +12,10 @@ from harness.core import cfg_text, Machinery
 from harness.drivers import files as drv
 
 BASE = {"Alphabet": {10, 97}, "ReadArgs": {0, 1, 2, 3}, "MaxWrite": 2, "DefaultBuf": 8192,
-        "Bufs": {0, 1, 3}, "Sides": {"r", "w"}, "LineFlushThroughNewline": True, "KeepTruncatedTail": True}
+        "Bufs": {0, 1, 3}, "Sides": {"r", "w"}, "LineFlushThroughNewline": True, "KeepTruncatedTail": True,
+        "WriteFails": False, "RaiseAfterPartial": False, "TailAtZero": False}
+# a _write of the stream that raises while a buffer is flushed, then more writes (4 calls: write, flush, write, flush/close)
+FAILING = dict(BASE, Bufs={1, 3}, Sides={"w"}, MaxSrc=0, MaxOps=4, MaxWrite=1, WriteFails=True)
 INVS = ["ReadConservation", "ReturnsReference", "WriteConservation", "WriteClauses", "LineDelivered", "ClosedFlushed"]
 
 
@@ -42,7 +45,8 @@ class Recorder:
 
     def call(self, op, n=-1, data=b"", as_text=False):
         f = self.f
-        ev = {"op": "readline" if op == "next" else op, "n": n, "data": list(data), "ret": [], "raised": False, "exc": "", "via": op}
+        ev = {"op": "readline" if op == "next" else op, "n": n, "data": list(data), "ret": [], "raised": False, "exc": "", "via": op, "inject": 0}
+        nraised, nacc = getattr(self.stream, "raised", 0), len(getattr(self.stream, "accepted", ()))
         try:
             if op == "read":
                 r = f.read() if n < 0 else f.read(n)
@@ -68,6 +72,10 @@ class Recorder:
             raise
         except Exception as e:
             ev["raised"], ev["exc"] = True, repr(e)
+        if getattr(self.stream, "raised", 0) > nraised:
+            # 1: the failing _write was the first of its _write_all (nothing of that buffer had gone out), 2: after a partial push
+            acc = [k for (_, k) in self.stream.accepted[nacc:]]
+            ev["inject"] = 1 if acc.index(-1) == 0 else 2
         sb = self.sinkbytes()
         ev["sunk"] = list(sb[self.nsink:])
         self.nsink = len(sb)
@@ -78,7 +86,7 @@ class Recorder:
         return ev
 
 
-TCODE = {0: "init", 1: "call", 2: "callret", 3: "fetch", 4: "accept", 5: "ret"}
+TCODE = {0: "init", 1: "call", 2: "callret", 3: "fetch", 4: "accept", 5: "ret", 6: "raise"}
 OCODE = {0: "none", 1: "read", 2: "readline", 3: "write", 4: "flush", 5: "close"}
 _beh = re.compile(r'<<\s*"BEH"\s*,([\s\d,<>\-]*)>>')
 
@@ -102,6 +110,8 @@ def split_calls(hist):
             calls[-1]["fetch"].append((e["a"], e["b"]))
         elif e["t"] == "accept":
             calls[-1]["accept"].append((e["a"], e["b"]))
+        elif e["t"] == "raise":       # the stream's _write raised: offered e.a bytes, none taken
+            calls[-1]["accept"].append((e["a"], -1))
         elif e["t"] == "ret":
             calls[-1]["ret"] = e["d"]
     return calls
@@ -239,13 +249,46 @@ def run(c):
     c.mc("BufferedStream", cfg_text(constants=dict(BASE, Bufs={0}, Sides={"r"}, MaxSrc=3, MaxOps=2, KeepTruncatedTail=False),
                                     invariants=["ReadConservation"], view="View"), expect="ReadConservation", name="seeded-truncated-tail")
 
+    # ---- the stream's _write raises while a buffer is flushed, then the program goes on writing (write, flush, write,
+    # flush/close ...).  M: with 4.0.0's "reset the buffer after _write_all returned" every later flush/close that returns
+    # has delivered everything once, provided the failing _write was the first of its _write_all; a flush() that keeps the
+    # unsent tail in a buffer positioned at 0 (seeded defect) loses it at the next write
+    c.mc("BufferedStream", cfg_text(constants=dict(FAILING, TailAtZero=True), invariants=["WriteClauses"], view="View"),
+         expect="WriteClauses", name="seeded-tail-at-zero")
+    # (design-level note, not a verdict on the code: when the failing _write comes after part of the buffer went out,
+    # 4.0.0 sends that part again at the next flush - the model shows it; the statement does not speak about failing streams)
+    c.mc("BufferedStream", cfg_text(constants=dict(FAILING, RaiseAfterPartial=True, MaxOps=3), invariants=["WriteClauses"], view="View"),
+         expect="WriteClauses", name="4.0.0-resends-after-partial-failure")
+    r = c.mc_holds("BufferedStream_Gen", cfg_text(spec="GSpec", constants=FAILING, invariants=INVS + ["Emit"]), name="gen-failing-stream", workers=1)
+    fbehs = [b for b in behaviours(r.out) if any(e["t"] == "raise" for e in b[2])]
+    if len(fbehs) < 100:
+        raise Machinery("only %d behaviours with a failing stream emitted" % len(fbehs))
+    # RP: every one of them on the real class (fixed set, not sampled)
+    for buf, src, hist in fbehs:
+        tr = replay_behaviour(c, ChunkStream, buf, src, hist)
+        if not any(e["inject"] for e in tr["events"]):
+            raise Machinery("scripted stream failure was not delivered: %r" % (hist,))
+        batch.append(tr)
+        nbeh += 1
+        c.case(key=("rpf", buf, tuple((e["op"], tuple(e["data"]), e["inject"], len(e["sunk"])) for e in tr["events"]),
+                    tuple((e["t"], e["a"], e["b"]) for e in hist if e["t"] in ("accept", "raise"))), n=len(tr["events"]))
+    # fixed cases with the failure after a partial push (conformance only, see BufferedStream_Trace)
+    for buf, wch in ((3, [1, -1, 9]), (7, [2, -1, 1, 9]), (1, [1, -1, 9])):
+        f = ChunkStream("r+b", buf, b"", [], wch)
+        rec = Recorder(f, f)
+        for op, d in (("write", b"ab\ncd"), ("flush", b""), ("write", b"e\n"), ("flush", b""), ("write", b"f"), ("close", b"")):
+            rec.call(op, data=d)
+        f._closed = True
+        batch.append({"kind": "partial-failure", "buf": buf, "bufsize": buf, "src": [], "events": rec.events, "wchunks": wch})
+        c.case(key=("partial-failure", buf), n=len(rec.events))
+
     # ---- TV: random traces
     rnd = random.Random(c.seed)
     ntr = 400 if quick else 6000
     for i in range(ntr):
         batch.append(random_trace(c, rnd, ChunkStream, big=(i % 40 == 7)))
     slim = [{"buf": t["buf"], "src": t["src"],
-             "events": [{k: e[k] for k in ("op", "n", "data", "ret", "sunk", "off", "rbuf", "wbuf", "raised")} for e in t["events"]]}
+             "events": [{k: e[k] for k in ("op", "n", "data", "ret", "sunk", "off", "rbuf", "wbuf", "raised", "inject")} for e in t["events"]]}
             for t in batch]
     verdicts, done = [], 0
     step = 20000
